@@ -30,10 +30,10 @@ def run(ctx):
     rates = [8000] if quick else [8000, 11025, 22050]
     H = samegen.gen_header(rng, nloc=2)
     hdr3 = ",".join("B%s,S1" % rxlib.burst_hex(H) for _ in range(3))
-    def add(kind, follow, rate=None):
+    def add(kind, follow, rate=None, extra=""):
         rate = rate or rng.choice(rates)
         tx = rxlib.Tx(rng, H=H, rate=rate, impaired=False)
-        cases.append((kind, tx, tx.line(script="S0.3," + hdr3 + "," + follow)))
+        cases.append((kind, tx, tx.line(script="S0.3," + hdr3 + "," + follow, extra=extra)))
     add("silence", "S141")
     add("noise", "N141:%d" % rng.choice([50, 3000]))
     add("tone", "T141:%d:8000" % rng.choice([1000, 2083]))
@@ -45,6 +45,11 @@ def run(ctx):
     add("garbled-headers-after-history-expiry", "S13,B%s,S1,B%s,S141" % (rxlib.burst_hex(H[:15]), rxlib.burst_hex(H[:15])))
     add("chain-spanning-deadline", "S130,B%s,S3" % hx(chain_audio()))
     add("trailer-arrives", "S5," + ",".join("B%s,S1" % rxlib.burst_hex(b"NNNN") for _ in range(3)) + ",S3")
+    # the same with the events pulled one per iterator binding, and in chunks: however the client drives the iterators the
+    # StartOfMessage must be closed (by the trailer here, by the timer in the silent run)
+    add("trailer-arrives/one-event-per-binding", "S5," + ",".join("B%s,S1" % rxlib.burst_hex(b"NNNN") for _ in range(3)) + ",S141", extra="sched=one")
+    add("trailer-arrives/chunks", "S5," + ",".join("B%s,S1" % rxlib.burst_hex(b"NNNN") for _ in range(3)) + ",S3", extra="sched=chunks:%d:7" % rng.below(1000))
+    add("silence/one-event-per-binding", "S141", extra="sched=one")
     # framer level: carriers of valid characters of many lengths around the limit
     flines = []
     for n in ([240, 247, 248, 249, 252, 253, 300, 700] if quick else list(range(230, 270)) + [300, 500, 700, 1500]):
